@@ -35,16 +35,20 @@ struct c16_session : public vsim_session {
     std::ostream &o = *out;
     if (cmd == "divcheck") {
       colvarbias_abf *abf = dynamic_cast<colvarbias_abf *>(cvm::main()->bias_by_name(a[0]));
-      if (!abf || !abf->pmf || abf->pmf->nd < 2) { o << "DIVCHECK none\n"; return true; }
-      integrate_potential *pmf = abf->pmf.get();
-      o << "DIVCHECK " << pmf->nd;
-      for (size_t i = 0; i < pmf->nd; i++) o << " " << (abf->gradients->periodic[i] ? 1 : 0);
-      for (size_t i = 0; i < pmf->nd; i++) o << " " << abf->gradients->nx[i];
-      for (size_t i = 0; i < pmf->nd; i++) o << " " << vs_hex(abf->gradients->widths[i]);
+      // `divcheck <bias> local`: the LOCAL grids and local_pmf of a shared-ABF walker instead of the collected ones
+      const bool local = a.size() > 1 && a[1] == "local";
+      if (!abf || !abf->pmf || (local && !abf->local_pmf) || abf->pmf->nd < 2) { o << "DIVCHECK none\n"; return true; }
+      integrate_potential *pmf = local ? abf->local_pmf.get() : abf->pmf.get();
+      colvar_grid_gradient *grad = local ? abf->local_gradients.get() : abf->gradients.get();
+      colvar_grid_count *cnt = local ? abf->local_samples.get() : abf->samples.get();
+      o << (local ? "DIVCHECK-LOCAL " : "DIVCHECK ") << pmf->nd;
+      for (size_t i = 0; i < pmf->nd; i++) o << " " << (grad->periodic[i] ? 1 : 0);
+      for (size_t i = 0; i < pmf->nd; i++) o << " " << grad->nx[i];
+      for (size_t i = 0; i < pmf->nd; i++) o << " " << vs_hex(grad->widths[i]);
       o << " |";
-      for (size_t k = 0; k < abf->gradients->data.size(); k++) o << " " << vs_hex(abf->gradients->data[k]);
+      for (size_t k = 0; k < grad->data.size(); k++) o << " " << vs_hex(grad->data[k]);
       o << " |";
-      for (size_t k = 0; k < abf->samples->data.size(); k++) o << " " << abf->samples->data[k];
+      for (size_t k = 0; k < cnt->data.size(); k++) o << " " << cnt->data[k];
       o << " |";
       for (size_t k = 0; k < pmf->divergence.size(); k++) o << " " << vs_hex(pmf->divergence[k]);
       pmf->set_div();
